@@ -163,7 +163,7 @@ impl Property for C17 {
 }
 
 /// Put 0..3 file boundaries on the pieces. `inside_value`: at least one strictly inside a record.
-fn place_cuts(rng: &mut Rng, case: &mut Case, inside_value: bool) {
+pub fn place_cuts(rng: &mut Rng, case: &mut Case, inside_value: bool) {
     let n = case.pieces.len();
     if n == 0 {
         return;
@@ -199,18 +199,6 @@ fn place_cuts(rng: &mut Rng, case: &mut Case, inside_value: bool) {
     let _ = placed_inside;
 }
 
-fn split_files(case: &Case) -> Vec<Vec<u8>> {
-    let stream = case.stream();
-    let mut files = Vec::new();
-    let mut prev = 0;
-    for c in case.cuts() {
-        files.push(stream[prev..c].to_vec());
-        prev = c;
-    }
-    files.push(stream[prev..].to_vec());
-    files
-}
-
 struct FilesRun {
     out: RunOut,
     paths: Vec<String>,
@@ -233,25 +221,6 @@ fn run_on_files(case: &Case, files: &[Vec<u8>], ctx: &mut Ctx) -> FilesRun {
         let _ = std::fs::remove_file(p);
     }
     FilesRun { out, paths }
-}
-
-fn strip_paths(text: &[u8], paths: &[String]) -> Vec<u8> {
-    let mut s = text.to_vec();
-    for p in paths {
-        let needle = format!("{p}:").into_bytes();
-        let mut out = Vec::with_capacity(s.len());
-        let mut i = 0;
-        while i < s.len() {
-            if s[i..].starts_with(&needle) {
-                i += needle.len();
-            } else {
-                out.push(s[i]);
-                i += 1;
-            }
-        }
-        s = out;
-    }
-    s
 }
 
 fn uses_context(case: &Case) -> bool {
